@@ -43,6 +43,8 @@ def check(run):
     depends_on(run, "C12", {"TYPESTATE", "NOMUT", "COPY"})
     depends_on(run, "C06", {"MERGE", "KEYS", "COUNT", "VALUE", "COPY"})
     depends_on(run, "C15", {"STORAGE", "DEFAULTS", "CTOR"}, only=lambda rule, inst: inst.startswith("IncrementalPFI"))
+    depends_on(run, "C14", {"WIRING", "RIVER"})     # every evaluation asked for reaches the (current) model
+    depends_on(run, "C13", {"PAIR"})                # a river metric used as loss reports the value of the single pair
     # ---- the per-feature loop --------------------------------------------------------------------
     imps = [(ev, ctx) for ev, ctx in walk(s.events) if is_call_to(ev, inc.imf, "impute")]
     run.need(imps, f"{fq} never calls the imputer")
